@@ -28,26 +28,31 @@ for junk in ("model.bif",):
     try: os.remove(os.path.join(d, junk))
     except OSError: pass
 missing = sorted(stable - passed)
-if missing and not extra and len(missing) <= 60:
-    # re-run the apparent regressions serially: some tests are flaky under parallel load
-    ids = []
+if missing and not extra:
+    # re-run the files of the apparent regressions serially: many tests are flaky under parallel load
+    files = []
     for m in missing:
         cls, name = m.split("::")
         parts = cls.split(".")
-        # module path: everything up to the last component that starts with "test_"
         k = max(i for i, x in enumerate(parts) if x.startswith("test_"))
-        ids.append("/".join(parts[:k + 1]) + ".py::" + "::".join(parts[k + 1:] + [name]))
-    out2 = tempfile.mktemp(suffix=".xml")
-    subprocess.run(["/venv/bin/python", "-m", "pytest", "-q", "-p", "no:cacheprovider", "--timeout=900", "--junitxml=" + out2] + ids,
-                   cwd=d, env=env, capture_output=True, text=True)
-    try:
-        for tc in ET.parse(out2).getroot().iter("testcase"):
-            if not any(c.tag in ("failure", "error", "skipped") for c in tc):
-                passed.add((tc.get("classname") or "") + "::" + (tc.get("name") or ""))
-        os.remove(out2)
-    except Exception as e:
-        print("serial re-run failed", e)
-    missing = sorted(stable - passed)
+        f = "/".join(parts[:k + 1]) + ".py"
+        if f not in files:
+            files.append(f)
+    for attempt in (1, 2):
+        if not files:
+            break
+        out2 = tempfile.mktemp(suffix=".xml")
+        r = subprocess.run(["/venv/bin/python", "-m", "pytest", "-q", "-p", "no:cacheprovider", "--timeout=1800", "--junitxml=" + out2] + files,
+                           cwd=d, env=env, capture_output=True, text=True)
+        try:
+            for tc in ET.parse(out2).getroot().iter("testcase"):
+                if not any(c.tag in ("failure", "error", "skipped") for c in tc):
+                    passed.add((tc.get("classname") or "") + "::" + (tc.get("name") or ""))
+            os.remove(out2)
+        except Exception as e:
+            print("serial re-run failed", e, r.stdout[-500:], r.stderr[-500:])
+        missing = sorted(stable - passed)
+        files = sorted({"/".join(m.split("::")[0].split(".")[:max(i for i, x in enumerate(m.split("::")[0].split(".")) if x.startswith("test_")) + 1]) + ".py" for m in missing})
 if extra:
     print("(partial run) passed:", len(passed))
 print(f"stable_pass={len(stable)} passed_now={len(passed & stable)} regressions={len(missing) if not extra else 'n/a'}")
